@@ -240,7 +240,11 @@ def run(cx, tier='quick'):
     from .scope import check_scopes
     check_scopes(cx, rep, ['::hash::'])
     rep.floor('SUM-HASH', 2)
-    rep.assumptions += ['::core::hash::Hash::hash of usize/fields feeds data determined by the value', 'union Hash is covered by C20']
+    rep.assumptions += ['::core::hash::Hash::hash of usize/fields feeds data determined by the value', 'union Hash (byte-wise, `unsafe`-gated) is specified by C20; its summary is evaluated here as well']
+    # the union generator of this trait (byte-wise, SUM-UNION of C20) is part of this trait's derive too
+    from . import c20 as _c20
+    from ..facts import Facts as _Fu
+    _c20.check_hash(cx, rep, _Fu(cx))
     rep.not_decided += ['whether a user field type\'s Hash distinguishes values (premise of the property)']
     from .binders import check_binder_injectivity
     check_binder_injectivity(cx, rep, ['::hash::'])
